@@ -204,6 +204,8 @@ let run_line (line : string) : string =
   | "is" -> let v = rd_val () in let a = rd_val () in
     show (fun b -> if b then "1" else "0") (is_builtin sat v a)
   | "typeof" -> show_ty (type_of (rd_val ()))
+  | "conv" -> let t = rd_ty () in let v = rd_val () in
+    (match convert fields_std t v with None -> "none" | Some o -> show show_val o)
   | "veq" -> let a = rd_val () in let b = rd_val () in if veq a b then "1" else "0"
   | "show" -> show_val (rd_val ())
   | "hist" ->
